@@ -195,6 +195,22 @@ def gen_builtin_cases(listing, tbl, tier, rng, tag="b", groups=("os", "filepath"
                                   "spec": {"id": "%s%d" % (tag, k), "main": main, "modules": mods, "withos": withos,
                                            "steps": [{"kind": "top", "ctx": cid}] + [{"kind": h, "ctx": cid} for h in host],
                                            "fn": "target"}})
+    # one VM used with two different OSes, one after the other: the main program calls target() under OS 1 (anything the
+    # module objects cache is resolved then), afterwards the host calls target() again with OS 2 in the context
+    for group in groups:
+        for name in listing.get(group, []):
+            spec = tbl[group].get(name)
+            if spec is None:
+                continue
+            setup, call, expect = spec
+            if not expect:
+                continue
+            main, mods, host = render_ctx("hostcall", setup, call)
+            k += 1
+            cases.append({"id": "%s%d" % (tag, k), "kind": "builtin", "builtin": group + "." + name, "context": "rebind",
+                          "supply": "rebind", "expect": expect, "want_os": 2,
+                          "spec": {"id": "%s%d" % (tag, k), "main": main + "\ntarget()", "modules": mods, "withos": 0,
+                                   "steps": [{"kind": "top", "ctx": 1}, {"kind": "hostcall", "ctx": 2}], "fn": "target"}})
     return cases, unlisted
 
 
@@ -468,8 +484,15 @@ def _body(res, tier, repo, obs, model, cg, proved, work):
                 harness_bad.append({"case": c["id"], "builtin": c["builtin"], "context": c["context"], "why": g["err"]})
                 continue
             want = c["want_os"]
+            if c["supply"] == "rebind" and g.get("err", "").startswith("run:"):
+                continue          # the operation ends the evaluation (exit): no second phase to observe
             ops = [e2["op"] for e2 in log if e2["os"] == want]
-            foreign = [e2 for e2 in log if e2["os"] != want]
+            foreign = [e2 for e2 in log if e2["os"] != want and not (c["supply"] == "rebind" and e2["os"] == 1)]
+            if c["supply"] == "rebind":
+                ops1 = [e2["op"] for e2 in log if e2["os"] == 1]
+                for grp in c["expect"]:
+                    if not any(op in ops1 for op in grp):
+                        why.append("first use: operation %s of %s not served by OS 1 (log of OS 1: %s)" % ("/".join(grp), c["builtin"], ops1[:6]))
             # ---- ORACLE 2: the supplied OS (and only it) served the operation
             for grp in c["expect"]:
                 if not any(op in ops for op in grp):
